@@ -43,7 +43,8 @@ type BEOp struct {
 	TTLNs    int64  `json:"ttl_ns,omitempty"`
 	SkipRead bool   `json:"skip_read,omitempty"`
 	SleepNs  int64  `json:"sleep_ns,omitempty"`
-	Mutate   bool   `json:"mutate,omitempty"` // overwrite the key buffer right after the call returned (C09)
+	Mutate   bool   `json:"mutate,omitempty"`  // overwrite the key buffer right after the call returned (C09)
+	NilVal   bool   `json:"nil_val,omitempty"` // write / store a nil interface value (untyped backends)
 }
 
 // BEScenario is the backend engine's part of a scenario.
@@ -355,6 +356,10 @@ func (r *beRun) exec(ci, oi int, op *BEOp) *beRec {
 	}
 
 	rec.tok = Tok{K: rec.key, ID: fmt.Sprintf("w%d.%d", ci, oi)}
+	if op.NilVal && r.sc.Backend != "shardedOf" {
+		rec.tok = Tok{K: rec.key, ID: nilID}
+	}
+
 	r.recs = append(r.recs, rec)
 
 	rec.inv = e.s.NextSeq()
@@ -383,6 +388,12 @@ func (r *beRun) exec(ci, oi int, op *BEOp) *beRec {
 
 				rec.expVal, at, rec.expOK = r.bk.expiredItem(rec.err)
 				rec.expAt = at.UnixNano()
+
+				if rec.expOK {
+					rec.expVal = nilTok(rec.key, rec.expVal)
+				}
+			} else {
+				rec.val = nilTok(rec.key, rec.val)
 			}
 		case "delete":
 			rec.err = r.bk.del(ctx, kb)
@@ -395,7 +406,7 @@ func (r *beRun) exec(ci, oi int, op *BEOp) *beRec {
 		case "walk":
 			rec.n, rec.walkErr = r.bk.walk(func(key []byte, v interface{}, exp time.Time) error {
 				zs.Yield("walk.cb")
-				rec.walk = append(rec.walk, walkEnt{key: string(key), val: v, exp: exp.UnixNano(), seq: e.s.NextSeq()})
+				rec.walk = append(rec.walk, walkEnt{key: string(key), val: nilTok(string(key), v), exp: exp.UnixNano(), seq: e.s.NextSeq()})
 
 				return nil
 			})
@@ -427,6 +438,9 @@ func (r *beRun) exec(ci, oi int, op *BEOp) *beRec {
 			rec.n, rec.err = r.bk.restore(bytes.NewReader(r.setupDump))
 		case "load":
 			rec.val, rec.ok = r.bk.load(kb)
+			if rec.ok {
+				rec.val = nilTok(rec.key, rec.val)
+			}
 		case "store":
 			r.bk.store(kb, rec.tok)
 		}
